@@ -30,6 +30,18 @@ func tuples(as, bs []int64) [][]int64 {
 	return r
 }
 
+func tuples3(as, bs, cs []int64) [][]int64 {
+	var r [][]int64
+	for _, a := range as {
+		for _, b := range bs {
+			for _, c := range cs {
+				r = append(r, []int64{a, b, c})
+			}
+		}
+	}
+	return r
+}
+
 func seq(lo, hi int64) []int64 {
 	var r []int64
 	for i := lo; i <= hi; i++ {
@@ -58,6 +70,44 @@ func init() {
 			{Func: "H_C03_layout_ws", Quick: cross(seq(1, 195), 1, 1), Thorough: cross(seq(1, 195), 1, 2), Covers: []string{"end"}},
 			{Func: "H_C03_layout_comment", Quick: commentTuples(1), Thorough: commentTuples(2), Covers: []string{"end"}},
 			{Func: "H_C03_layout_sep", Quick: rng(0, 20), Covers: []string{"end"}},
+		},
+	})
+	semFuncs := []string{"semantic.ResolveSymbols", "semantic.(*resolver).RegisterNames/ResolveType/ResolveConstValue/ResolveTypedefs/ResolveBaseService", "semantic.getEnum", "semantic.Deref",
+		"semantic.SplitType/SplitValue/IDLPrefix", "semantic.(*checker).CheckAll (CheckGlobals, CheckEnums, CheckStructLikes, CheckUnions, CheckFunctions)", "parser.CircleDetect", "parser.(*Thrift).DepthFirstSearch (goroutine + channel)"}
+	register(&Prop{
+		ID:          "C05",
+		HarnessDirs: []string{"astsig", "sem"},
+		Pkg:         "github.com/cloudwego/thriftgo/semantic",
+		Diff:        []string{"D_SEM_rich", "D_SEM_errors"},
+		Functions:   semFuncs,
+		Bounds:      "three-file include diamond (a -> x,y; x -> y) with same local names in x and y and typedef chains crossing files; one reference at a time is a FREE byte string of length n (type references n<=4 quick / 5 thorough at 7 positions; constant identifiers n<=5 / 6 at 4 positions; base service n<=3 / 4); definition order: 3 permutations per file",
+		Assumptions: []string{"the reference resolver in the harness interprets a hand-written model of the three files", "definition names are fixed single letters; longer names are outside"},
+		Harnesses: []Harness{
+			{Func: "H_SEM_typeref", Quick: tuples3([]int64{0}, seq(0, 6), seq(1, 4)), Thorough: tuples3([]int64{0}, seq(0, 6), seq(1, 5)), Covers: []string{"bound", "unbound"}},
+			{Func: "H_SEM_valref", Quick: tuples3([]int64{0}, seq(0, 3), seq(1, 5)), Thorough: tuples3([]int64{0}, seq(0, 3), seq(1, 6)), Covers: []string{"bound", "unbound"}},
+			{Func: "H_SEM_extends", Quick: tuples([]int64{0}, seq(1, 3)), Thorough: tuples([]int64{0}, seq(1, 4)), Covers: []string{"bound", "unbound"}},
+			{Func: "H_SEM_order", Covers: []string{"end"}},
+		},
+	})
+	register(&Prop{
+		ID:          "C04",
+		HarnessDirs: []string{"astsig", "sem"},
+		Pkg:         "github.com/cloudwego/thriftgo/semantic",
+		Diff:        []string{"D_SEM_rich", "D_SEM_errors"},
+		Functions:   semFuncs,
+		Bounds:      "in-process diagnosis pipeline CircleDetect -> CheckAll -> ResolveSymbols (as in sdk/invoke.go) on the three-file model: free reference strings as in C05 (error direction), duplicate globals of every kind pair with free 2-byte names in every file of the include graph, duplicate fields (free i32 ids, free names) in struct/union/exception/args/throws, enum with free names and free i64 numbers, function flags, union defaults (3 members), typedef targets (3 typedefs x 6 targets, with and without an enum-value constant), include matrices of 1..3 files",
+		Assumptions: []string{"process level behaviour (exit status of the binary, no file written, message text) is outside: os/exec and the file system are not encodable", "syntax errors are the error branch of C03", "constant/default type checking in the Go backend (resolver.go) is outside this check"},
+		Harnesses: []Harness{
+			{Func: "H_SEM_typeref", Quick: tuples3([]int64{1}, seq(0, 6), seq(1, 4)), Thorough: tuples3([]int64{1}, seq(0, 6), seq(1, 5)), Covers: []string{"bound", "unbound"}},
+			{Func: "H_SEM_valref", Quick: tuples3([]int64{1}, seq(0, 3), seq(1, 5)), Thorough: tuples3([]int64{1}, seq(0, 3), seq(1, 6)), Covers: []string{"bound", "unbound"}},
+			{Func: "H_SEM_extends", Quick: tuples([]int64{1}, seq(1, 3)), Thorough: tuples([]int64{1}, seq(1, 4)), Covers: []string{"bound", "unbound"}},
+			{Func: "H_C04_dup_global", Quick: tuples3(seq(0, 6), seq(0, 6), []int64{0, 2}), Thorough: tuples3(seq(0, 6), seq(0, 6), seq(0, 2)), Covers: []string{"dup", "distinct"}},
+			{Func: "H_C04_dup_field", Quick: rng(0, 4), Covers: []string{"dup", "distinct"}},
+			{Func: "H_C04_enum", Covers: []string{"bad", "good"}},
+			{Func: "H_C04_function", Covers: []string{"bad", "good"}},
+			{Func: "H_C04_union_default", Covers: []string{"two", "one"}},
+			{Func: "H_C04_typedef_cycle", Quick: rng(0, 1), Covers: []string{"cycle", "acyclic"}, StepLimitIsViolation: true, MaxSteps: 3000000},
+			{Func: "H_C04_include_cycle", Quick: rng(1, 3), Covers: []string{"cycle", "dag"}, StepLimitIsViolation: true, MaxSteps: 3000000},
 		},
 	})
 	register(&Prop{
